@@ -2,7 +2,7 @@
 From Coq Require Import List ZArith QArith Qround Bool.
 From PV Require Import lib.Sx lib.Str lib.Result.
 From PV Require Import model.Base spec.SpecBase model.TimeWrite spec.SpecTimeW extract.OrCommon.
-From PV Require model.Langs spec.SpecTimeSamiDoc model.DfxpWriteDoc model.SamiWriteDoc model.SamiText.
+From PV Require model.Langs spec.SpecTimeSamiDoc model.DfxpWriteDoc model.SamiWriteDoc model.SamiText model.DfxpWriteDocLangs.
 Import ListNotations.
 Open Scope Z_scope.
 
@@ -168,6 +168,16 @@ Definition req_sami_doc_text (arg : sx) : sx :=
   | _ => bad
   end.
 
+(* 209 (round 4): [[language, captions] ...] -> the text of the DFXP document with one <div> per language *)
+Definition req_dfxp_doc_langs (arg : sx) : sx :=
+  match sx_listof (fun x => match x with
+                            | SL [SS lang; cs] => match sx_listof sx_wcap cs with Some cs => Some (lang, cs) | None => None end
+                            | _ => None
+                            end) arg with
+  | Some langs => SS (model.DfxpWriteDocLangs.dfxp_write_doc_langs langs)
+  | None => bad
+  end.
+
 Definition dispatch (code : Z) (arg : sx) : option sx :=
   match code with
   | 200 => Some (req_model arg)
@@ -179,5 +189,6 @@ Definition dispatch (code : Z) (arg : sx) : option sx :=
   | 206 => Some (req_sami_doc arg)
   | 207 => Some (req_dfxp_doc_text arg)
   | 208 => Some (req_sami_doc_text arg)
+  | 209 => Some (req_dfxp_doc_langs arg)
   | _ => None
   end.
